@@ -544,6 +544,14 @@ func (c *Ctx) bin(op Op, a, b *Term) *Term {
 		if a.IsConst() && !b.IsConst() {
 			a, b = b, a
 		}
+		// multiplication by a power of two is a shift
+		if b.IsConst() && b.Big == nil && w <= 64 && b.V != 0 && b.V&(b.V-1) == 0 {
+			k := 0
+			for (b.V>>uint(k))&1 == 0 {
+				k++
+			}
+			return c.bin(OpBVShl, a, c.BV(w, uint64(k)))
+		}
 	case OpBVAnd:
 		if isZero(a) || isZero(b) {
 			return c.BV(w, 0)
@@ -608,8 +616,8 @@ func (c *Ctx) bin(op Op, a, b *Term) *Term {
 			return c.BV(w, 0)
 		}
 		// shifts by constant as extract/concat keep bit-blasting simple
-		if b.IsConst() && b.Big == nil && b.V < uint64(w) && w <= 64 {
-			k := int(b.V)
+		if b.IsConst() && b.constBig().IsUint64() && b.constBig().Uint64() < uint64(w) {
+			k := int(b.constBig().Uint64())
 			switch op {
 			case OpBVShl:
 				return c.Concat(c.Extract(a, w-1-k, 0), c.BV(k, 0))
@@ -811,7 +819,7 @@ func (c *Ctx) BNot(a *Term) *Term {
 }
 
 func (c *Ctx) Neg(a *Term) *Term {
-	if a.IsConst() && a.Big == nil {
+	if a.IsConst() && a.Big == nil && a.W <= 64 {
 		return c.BV(a.W, -a.V)
 	}
 	return c.Sub(c.BV(a.W, 0), a)
@@ -829,6 +837,18 @@ func (c *Ctx) cmp(op Op, a, b *Term) *Term {
 				return c.Bool(x.Cmp(y) < 0)
 			case OpBVUle:
 				return c.Bool(x.Cmp(y) <= 0)
+			case OpBVSlt, OpBVSle:
+				sg := func(v *big.Int) *big.Int {
+					if v.Bit(a.W-1) == 1 {
+						return new(big.Int).Sub(v, new(big.Int).Lsh(big.NewInt(1), uint(a.W)))
+					}
+					return v
+				}
+				r := sg(x).Cmp(sg(y))
+				if op == OpBVSlt {
+					return c.Bool(r < 0)
+				}
+				return c.Bool(r <= 0)
 			}
 		} else {
 			x, y := a.V, b.V
